@@ -603,6 +603,8 @@ func runC14(cfg *vh.Config) error {
 			for _, pkg := range bundles[i].Packages {
 				addCase(lo.caseTerm(pkg), "load", in, lo.Pkgs[pkg])
 				res.Count("case_load")
+				addCase(lo.linkTerm(pkg), "link", in, lo.Linked[pkg])
+				res.Count("case_link")
 			}
 		}
 		caseNo++
